@@ -12,7 +12,7 @@ trap cleanup EXIT
 if ! (cd "$W" && git apply "$D/patch.diff"); then echo "SEED: patch does not apply to HEAD"; exit 3; fi
 if ! (cd "$W" && go build ./... 2>&1 | tail -5); then echo "SEED: build failed"; exit 3; fi
 (cd "$W" && go vet -tags verif ./app/ >/dev/null 2>&1)
-echo "SEED: baseline on patched tree:"; REPO_DIR="$W" /verif/tools/baseline.sh | tail -3
+if [ -z "$SKIP_BASELINE" ]; then echo "SEED: baseline on patched tree:"; REPO_DIR="$W" /verif/tools/baseline.sh | tail -3; fi
 for id in "$@"; do
   echo "SEED: running check $id against the patched tree"
   /verif/tools/mutant_run.sh "$id" "$D/patch.diff" quick 2>&1 | grep -E "VIOLATION|property=|INCONCLUSIVE|BUILD-FAILED" | head -6
